@@ -320,7 +320,7 @@ class World:
             return False
 
     # ------------------------------------------------------------------ operations
-    def new(self, tx, b, placement=None, allow=("null", "alias", "new", "foreign"), value=None, form=None, **genkw):
+    def new(self, tx, b, placement=None, allow=("null", "alias", "new", "foreign"), value=None, form=None, at=None, **genkw):
         """construct an object of type tx in buffer b; returns its key or None when the history cannot continue"""
         rng = self.rng
         cls = self.ns.cls(tx)
@@ -328,6 +328,14 @@ class World:
         inp, py = value if value is not None else self.gen(allow, **genkw).value(tx, b)
         placement = placement or rng.choice(["default", "default", "aligned", "packed", "explicit", "context"])
         kw = dict(_buffer=buf)
+        if at is not None:
+            try:
+                o0 = int(buf.allocate(0, align=False))
+                if at > o0 and (not buf.chunks or o0 >= buf.chunks[-1].start):      # only pad at the tail: nothing is skipped
+                    buf.allocate(at - o0, align=False)
+                    placement = "packed"
+            except Exception:       # noqa: placement is best effort
+                pass
         if placement in ("aligned", "packed"):
             kw["_offset"] = placement
         elif placement == "context" and not X.has_refs(tx):
@@ -380,7 +388,8 @@ class World:
             if k == "struct":
                 if not tx["f"]:
                     return None
-                i = rng.randrange(len(tx["f"]))
+                cand = [i for i, f in enumerate(tx["f"]) if X.has_refs(f)] if want == "ref" else []
+                i = rng.choice(cand) if cand and rng.random() < 0.85 else rng.randrange(len(tx["f"]))
                 step, ntx, nv = ("f", i), tx["f"][i], v[i]
             elif k == "arr":
                 n = len(v["it"])
@@ -419,7 +428,23 @@ class World:
             return False
         path, acc, last, etx, cur, b = ep
         route = rng.choice([r for r in self.routes(key) if r != "nplike"])
-        inp, py = self.gen(allow, np_forms=np_forms).value(etx, b, like=cur if etx["k"] not in ("ref", "uref") else None)
+        frm = None
+        if etx["k"] in ("struct", "arr") and rng.random() < 0.35:
+            # the value is an object of the same type and skeleton living in some buffer (possibly at the same offset elsewhere)
+            sb = rng.randrange(len(self.bufs))
+            val = self.gen(("null", "alias", "new") if sb != b else allow, np_forms=np_forms).value(etx, sb, like=cur)
+            dest_abs = None
+            try:
+                dest_abs = int(self.walk(self.fetch(key, "view"), acc + [last])._offset)
+            except Exception:       # noqa
+                pass
+            sk = self.new(etx, sb, value=val, at=dest_abs if (sb != b and rng.random() < 0.5) else None)
+            if sk is None:
+                return False
+            frm = sk
+            inp, py = [], self.fetch(sk, rng.choice(["ctor", "view"]))
+        else:
+            inp, py = self.gen(allow, np_forms=np_forms).value(etx, b, like=cur if etx["k"] not in ("ref", "uref") else None)
         exc = ""
         try:
             parent = self.walk(self.fetch(key, route), acc)
@@ -455,11 +480,181 @@ class World:
                 x = None
                 if X.has_refs(etx):
                     x = self.walk(self.fetch(key, route), acc + [last])
-                nv = self.to_shadow(etx, inp, x, b, key, acc + [last])
+                inp2 = inp if frm is None else self.copy_input(etx, self.shadow[frm], frm[0], frm[0] == b)
+                nv = self.to_shadow(etx, inp2, x, b, key, acc + [last])
                 self.shadow[okey] = _set_at(self.handles[okey]["tx"], self.shadow[okey], lp, nv)
             ok = self.safe_register(upd)
-        self.record("set", b=key[0] + 1, a=key[1], path=path, val=inp, route=route, exc=exc, form=_form(py))
+        extra = {} if frm is None else {"from": [frm[0] + 1, frm[1]]}
+        self.record("set", b=key[0] + 1, a=key[1], path=path, val=inp, route=route, exc=exc, form=_form(py), **extra)
         return ok and not exc
+
+    # ------------------------------------------------------------------ misuse (C11)
+    def all_elems(self, key, limit=60):
+        """every field/item position inside object key (no dereference): (accessor path to parent, last step, elem tx, shadow value)"""
+        out = []
+
+        def walk(tx, v, acc):
+            if len(out) >= limit:
+                return
+            if tx["k"] == "struct":
+                for i, f in enumerate(tx["f"]):
+                    out.append((list(acc), ("f", i), f, v[i]))
+                    walk(f, v[i], acc + [("f", i)])
+            elif tx["k"] == "arr":
+                for j, idx in enumerate(np.ndindex(*v["sh"])):
+                    if j >= 4:
+                        break
+                    out.append((list(acc), ("i", [int(q) for q in idx]), tx["it"], v["it"][j]))
+                    walk(tx["it"], v["it"][j], acc + [("i", [int(q) for q in idx])])
+        walk(self.handles[key]["tx"], self.shadow[key], [])
+        return out
+
+    def err(self, kind):
+        """perform one operation that cannot be honoured; returns False when no applicable target exists"""
+        rng = self.rng
+        keys = list(self.handles)
+        rng.shuffle(keys)
+        exc, detail, tag = "", "", ""
+
+        def attempt(fn):
+            nonlocal exc
+            try:
+                fn()
+            except Exception as ex:     # noqa: expected; TLC checks that it raised and that nothing changed
+                exc = type(ex).__name__
+
+        def parent_of(key, acc):
+            return self.walk(self.fetch(key, rng.choice([r for r in self.routes(key) if r != "nplike"])), acc)
+
+        def assign(key, acc, last, py):
+            par = parent_of(key, acc)
+            if last[0] == "f":
+                setattr(par, self.ns.fname(last[1]), py)
+            else:
+                par[tuple(last[1])] = py
+
+        found = False
+        for key in keys:
+            tx = self.handles[key]["tx"]
+            elems = self.all_elems(key)
+            rng.shuffle(elems)
+            if kind in ("index-get", "index-set"):
+                arrs = [(acc + [last], etx, cur) for acc, last, etx, cur in elems if etx["k"] == "arr"]
+                if tx["k"] == "arr":
+                    arrs.append(([], tx, self.shadow[key]))
+                arrs = [a for a in arrs if a[1]["it"]["k"] in ("sc", "str", "struct")]
+                if not arrs:
+                    continue
+                acc, atx, cur = rng.choice(arrs)
+                sh = cur["sh"]
+                ax = rng.randrange(len(sh))
+                idx = [rng.randrange(d) if d > 0 else 0 for d in sh]
+                idx[ax] = rng.choice([sh[ax], sh[ax] + 3, -1, -sh[ax] - 1])
+                detail = f"{key} {acc} idx={idx} shape={sh} item={atx['it']['k']}" + ("-dyn" if not X.is_static(atx["it"]) else "")
+                tag = ("negative" if idx[ax] < 0 else "beyond") + ("-dynitem" if not X.is_static(atx["it"]) else "-staticitem")
+                if kind == "index-get":
+                    attempt(lambda: self.walk(self.fetch(key, "view"), acc)[tuple(idx)])
+                else:
+                    like = cur["it"][0] if cur["it"] else None
+                    if like is None:
+                        continue
+                    val = self.gen(("null",)).value(atx["it"], key[0], like=like)[1]
+                    attempt(lambda: self.walk(self.fetch(key, "view"), acc).__setitem__(tuple(idx), val))
+                found = True
+                break
+            if kind == "array-length":
+                c = [(acc, last, etx, cur) for acc, last, etx, cur in elems if etx["k"] == "arr" and len(cur["it"]) > 0
+                     and (len(etx["sh"]) == 1 or True)]
+                if not c:
+                    continue
+                acc, last, etx, cur = rng.choice(c)
+                sh = list(cur["sh"])
+                ax = rng.randrange(len(sh))
+                sh[ax] = sh[ax] + rng.choice([1, 2]) if rng.random() < 0.6 or sh[ax] < 2 else sh[ax] - 1
+                if any(d >= 0 and d != n for d, n in zip(etx["sh"], sh)) and rng.random() < 0.5:
+                    pass        # also static dimensions may be violated
+                n = int(np.prod(sh))
+                like0 = cur["it"][0]
+                vs = [self.gen(("null",), np_forms=False).value(etx["it"], key[0], like=like0)[1] for _ in range(n)]
+                py = X.nested(vs, sh) if len(sh) == 1 or X.is_static(etx["it"]) else None
+                if py is None:
+                    continue
+                detail = f"{key} {acc}{last} new shape {sh} for stored {cur['sh']}"
+                tag = f"{len(sh)}d" + ("-dynitem" if not X.is_static(etx["it"]) else "-staticitem") + ("-dynshape" if any(d < 0 for d in etx["sh"]) else "-staticshape") + ("-longer" if n > len(cur["it"]) else "-shorter")
+                attempt(lambda: assign(key, acc, last, py))
+                found = True
+                break
+            if kind == "string-too-long":
+                c = [(acc, last, etx, cur) for acc, last, etx, cur in elems if etx["k"] == "str"]
+                if not c:
+                    continue
+                acc, last, etx, cur = rng.choice(c)
+                cap = (len(cur) + 1 + 7) // 8 * 8          # bytes available for text + NUL in the box created for cur
+                text = rng.choice(["x", "é", "ab"]) * (cap + rng.choice([0, 1, 8, 20]))
+                text = text[: max(cap, 1) + rng.choice([0, 3, 9])] if len(text.encode()) > cap + 40 else text
+                if len(text.encode()) + 1 <= cap:
+                    continue
+                detail = f"{key} {acc}{last} text of {len(text.encode())} bytes into a box of {cap}"
+                tag = "field" if last[0] == "f" else "item"
+                attempt(lambda: assign(key, acc, last, text))
+                found = True
+                break
+            if kind == "item-too-large":
+                c = [(acc, last, etx, cur) for acc, last, etx, cur in elems if last[0] == "i" and etx["k"] in ("struct", "arr") and not X.is_static(etx)
+                     and not X.has_refs(etx)]
+                if not c:
+                    continue
+                acc, last, etx, cur = rng.choice(c)
+                g = self.gen(("null",), np_forms=False, mindim=1)
+                for _ in range(20):
+                    inp, py = g.value(etx, key[0])
+                    if _size_of(etx, inp) > _size_of(etx, cur):
+                        break
+                else:
+                    continue
+                detail = f"{key} {acc}{last} value of size {_size_of(etx, inp)} into an item of size {_size_of(etx, cur)}"
+                tag = etx["k"]
+                attempt(lambda: assign(key, acc, last, py))
+                found = True
+                break
+            if kind == "union-non-member":
+                c = [(acc, last, etx, cur) for acc, last, etx, cur in elems if etx["k"] == "uref"]
+                if not c:
+                    continue
+                acc, last, etx, cur = rng.choice(c)
+                members = [X.key(t) for t in etx["of"]]
+                others = [k for k, h in self.handles.items() if X.key(h["tx"]) not in members and h["tx"]["k"] in ("struct", "arr")]
+                if others and rng.random() < 0.7:
+                    ok = rng.choice(others)
+                    py = self.fetch(ok, "view")
+                    detail = f"{key} {acc}{last} := object {ok} of a non-member type"
+                else:
+                    py = ("NoSuchMember", {})
+                    detail = f"{key} {acc}{last} := ('NoSuchMember', {{}})"
+                attempt(lambda: assign(key, acc, last, py))
+                found = True
+                break
+            if kind in ("wrong-context", "offset-without-buffer"):
+                if X.has_refs(tx):
+                    continue
+                cls = self.ns.cls(tx)
+                src = self.fetch(key, "view")
+                if kind == "wrong-context":
+                    ob = [i for i, b in enumerate(self.bufs) if b.context is not self.bufs[key[0]].context]
+                    if not ob:
+                        continue
+                    detail = f"{cls.__name__}(obj, _buffer=buffer of context B, _context=context A)"
+                    attempt(lambda: cls(src, _buffer=self.bufs[ob[0]], _context=self.bufs[key[0]].context))
+                else:
+                    detail = f"{cls.__name__}(obj, _offset=8) without a buffer"
+                    attempt(lambda: cls(src, _offset=8))
+                found = True
+                break
+        if not found:
+            return False
+        self.prog.append(f"err {kind}: {detail} -> {exc or 'NO ERROR'}")
+        self.record("err", kind=kind, exc=exc, detail=detail, tag=tag)
+        return True
 
     def copy(self, key, db):
         rng = self.rng
@@ -532,3 +727,30 @@ def _set_at(tx, v, lp, nv):
     v["it"] = list(v["it"])
     v["it"][j] = _set_at(tx["it"], v["it"][j], lp[1:], nv)
     return v
+
+
+def _size_of(tx, v):
+    """size in bytes of a value of type tx per the documented format (harness-side, for choosing misfitting values only)"""
+    k = tx["k"]
+    if k == "sc":
+        return tx["w"]
+    if k == "str":
+        return 8 + (len(v) + 1 + 7) // 8 * 8
+    if k == "ref":
+        return 8
+    if k == "uref":
+        return 16
+    slot = lambda n: (n + 7) // 8 * 8
+    if k == "struct":
+        if X.is_static(tx):
+            return sum(slot(_size_of(f, w)) for f, w in zip(tx["f"], v))
+        nd = sum(1 for f in tx["f"] if not X.is_static(f))
+        return 8 + sum(slot(_size_of(f, w)) for f, w in zip(tx["f"], v)) + 8 * (nd - 1)
+    n = len(v["it"])
+    if X.is_static(tx):
+        return slot(n * _size_of(tx["it"], None))
+    ndyn = sum(1 for d in tx["sh"] if d < 0)
+    hdr = 8 + 8 * ndyn + (8 * len(tx["sh"]) if ndyn and len(tx["sh"]) > 1 else 0)
+    if X.is_static(tx["it"]):
+        return slot(hdr + n * _size_of(tx["it"], None))
+    return slot(hdr + 8 * n + sum(_size_of(tx["it"], w) for w in v["it"]))
